@@ -1194,3 +1194,45 @@ pub fn recursive_gallery() -> Vec<Program> {
         ),
     ]
 }
+
+
+/// Recursion whose only `Box` is an ARGUMENT of a generated generic type that stores its argument
+/// inline (`Slot<Box<Node>>` with `Slot<T> { value: Option<T> }`): the heap indirection of the
+/// cycle lives in the type name of the field, nowhere in the registry's graph.
+pub fn inline_wrapper_gallery() -> Vec<Program> {
+    let nf = |n: &str, t: Ty| FieldDecl { name: Some(n.into()), ty: t, compact: false, skip: false, docs: vec![] };
+    let uf = |t: Ty| FieldDecl { name: None, ty: t, compact: false, skip: false, docs: vec![] };
+    let pd = |n: &str| ParamDecl { name: n.into(), skipped: false, cfg: false, uint: false };
+    let def = |name: &str, params: Vec<ParamDecl>, kind: DefKind| Def { module: vec!["w".into()], name: name.into(), params, kind, docs: vec![] };
+    let bx = |t: Ty| Ty::Box(t.b());
+    vec![
+        Program {
+            krate: "krate".into(),
+            defs: vec![
+                def("Slot", vec![pd("T")], DefKind::Struct(Style::Named, vec![nf("value", Ty::Option(Ty::Param(0).b()))])),
+                def("Node", vec![], DefKind::Struct(Style::Named, vec![nf("next", Ty::Def(0, vec![bx(Ty::Def(1, vec![]))])), nf("v", Ty::Prim(Prim::U8))])),
+            ],
+            markers: vec![],
+            roots: vec![Ty::Def(1, vec![])],
+            prefix: vec![],
+        },
+        Program {
+            krate: "krate".into(),
+            defs: vec![
+                def("Pair", vec![pd("A"), pd("B")], DefKind::Struct(Style::Unnamed, vec![uf(Ty::Param(0)), uf(Ty::Param(1))])),
+                def(
+                    "Expr",
+                    vec![],
+                    DefKind::Enum(vec![
+                        VariantDecl { name: "Lit".into(), index: None, style: Style::Unnamed, fields: vec![uf(Ty::Prim(Prim::U32))], docs: vec![] },
+                        VariantDecl { name: "Add".into(), index: None, style: Style::Unnamed, fields: vec![uf(Ty::Def(0, vec![bx(Ty::Def(1, vec![])), bx(Ty::Def(1, vec![]))]))], docs: vec![] },
+                        VariantDecl { name: "Neg".into(), index: None, style: Style::Named, fields: vec![nf("inner", Ty::Tuple(vec![bx(Ty::Def(1, vec![])), Ty::Prim(Prim::U8)]))], docs: vec![] },
+                    ]),
+                ),
+            ],
+            markers: vec![],
+            roots: vec![Ty::Def(1, vec![])],
+            prefix: vec![],
+        },
+    ]
+}
